@@ -284,7 +284,7 @@ def _eval_shard(path):
         m = rx.search(out)
         if not m:
             return path, None, "cannot read %s from coqc output: %s" % (k, out[-500:])
-        res[k] = [int(x) for x in re.findall(r"(\d+)%N", m.group(1))]
+        res[k] = [int(x) for x in re.findall(r"(\d+)(?:%N)?", m.group(1))]
     for ext in (".vo", ".vok", ".vos"):
         try:
             os.remove(path[:-2] + ext)
